@@ -359,6 +359,13 @@ class Folder:
                 ast.Add: lambda x, y: x + y, ast.Sub: lambda x, y: x - y, ast.Mult: lambda x, y: x * y, ast.Div: lambda x, y: x / y, ast.Pow: lambda x, y: x**y,
                 ast.FloorDiv: lambda x, y: x // y, ast.Mod: lambda x, y: x % y, ast.BitXor: lambda x, y: x ^ y, ast.BitAnd: lambda x, y: x & y, ast.BitOr: lambda x, y: x | y, ast.RShift: lambda x, y: x >> y, ast.LShift: lambda x, y: x << y,
             }
+            if isinstance(node.op, ast.Mult) and ((isinstance(a, PySeq) and isinstance(b, int) and not isinstance(b, bool)) or (isinstance(b, PySeq) and isinstance(a, int) and not isinstance(a, bool))):
+                seq_, cnt_ = (a, b) if isinstance(a, PySeq) else (b, a)
+                if cnt_ > 4096:
+                    raise Unfoldable("sequence repetition too long")
+                return PySeq(list(seq_) * max(cnt_, 0))  # python sequence repetition, not element-wise product
+            if isinstance(node.op, ast.Add) and isinstance(a, PySeq) and isinstance(b, PySeq):
+                return PySeq(list(a) + list(b))
             f = ops.get(type(node.op))
             if f is None:
                 raise Unfoldable("operator")
@@ -565,13 +572,39 @@ class Folder:
                         return BoolList(int(red(bool(t) for t in row)) for row in v)
                     return BoolList(int(red(bool(row[j]) for row in v)) for j in range(len(v[0])))
                 raise Unfoldable("any/all over an axis")
+            if m in ("expand", "expand_as", "broadcast_to") and node.args:
+                v = self.fold(node.func.value)
+                dims = []
+                for a_ in node.args:
+                    t_ = self.fold(a_.value) if isinstance(a_, ast.Starred) else self.fold(a_)
+                    dims += list(t_) if isinstance(t_, list) else [t_]
+                if m == "expand_as":
+                    raise Unfoldable("expand_as")
+                if not all(isinstance(d, int) and not isinstance(d, bool) for d in dims):
+                    raise Unfoldable("expand sizes")
+                cur = v if isinstance(v, list) else [v]
+                shp = _shape(cur)
+                while len(shp) < len(dims):
+                    cur, shp = [cur], [1] + shp
+
+                def ex(z, ds, sh):
+                    if not ds:
+                        return z
+                    d, s0 = ds[0], sh[0]
+                    if d == -1 or d == s0:
+                        return [ex(t, ds[1:], sh[1:]) for t in z]
+                    if s0 == 1:
+                        return [ex(z[0], ds[1:], sh[1:]) for _ in range(d)]
+                    raise Unfoldable("expand: incompatible sizes")
+
+                return ex(cur, dims, shp)
             if m in ("repeat_interleave", "repeat", "tile"):
                 v = self.fold(node.func.value)
                 cnt = [self.fold(a) for a in node.args]
                 if isinstance(v, list) and not any(isinstance(x, list) for x in v) and len(cnt) == 1 and isinstance(cnt[0], int) and not isinstance(cnt[0], bool) and not [k for k in node.keywords if not (k.arg == "dim" and self.fold(k.value) in (0, -1))]:
                     return [x for x in v for _ in range(cnt[0])] if m == "repeat_interleave" else list(v) * cnt[0]
                 raise Unfoldable(f"method {m} beyond 1-D")
-            if m in ("clip", "clamp", "log1p", "minimum", "maximum", "flip", "fliplr", "flipud"):
+            if m in ("clip", "clamp", "log1p", "minimum", "maximum", "flip", "fliplr", "flipud", "angle"):
                 fake = ast.Call(func=ast.Attribute(value=ast.Name(id="torch", ctx=ast.Load()), attr=m, ctx=ast.Load()), args=[node.func.value] + list(node.args), keywords=list(node.keywords))
                 return self.fold(fake)
             if m in ("abs", "sum", "prod", "min", "max", "sign", "tanh", "sqrt", "exp", "argmin", "argmax", "amin", "amax", "all", "any", "numel", "dim", "conj", "mean"):
@@ -693,6 +726,8 @@ class Folder:
                 except (TypeError, ZeroDivisionError) as exc:
                     raise Unfoldable(str(exc))
                 raise Unfoldable("div rounding mode")
+            if short == "angle" and node.args:
+                return _ew(lambda z: cmath.phase(complex(z)), self.fold(node.args[0]))
             if short in ("log1p", "expm1") and node.args:
                 try:
                     return _ew(math.log1p if short == "log1p" else math.expm1, self.fold(node.args[0]))
